@@ -326,6 +326,7 @@ func genRun(c *h.Ctx, r *h.Rng, maxOps int) {
 				t = cur - 3*cr // out of bounds
 			}
 			cnt := 1 + r.Intn(4)
+			txV := math.Float64bits(float64(r.Intn(50)))
 			for i := 0; i <= cnt; i++ {
 				s := pickSeries()
 				if i == 0 {
@@ -348,7 +349,10 @@ func genRun(c *h.Ctx, r *h.Rng, maxOps int) {
 						ref, kind = l[r.Intn(len(l))], "stale"
 					}
 				}
-				v := math.Float64bits(float64(r.Intn(50)))
+				// one value per transaction: a second sample for the same series at the transaction's
+				// timestamp is then an identical duplicate (a no-op), not a sample that reaches the WAL and is
+				// dropped at Commit
+				v := txV
 				if i == 0 {
 					v = math.Float64bits(1)
 				}
@@ -433,7 +437,7 @@ func main() {
 	}
 	maxOps := 45
 	if c.Tier == "thorough" {
-		maxOps = 130
+		maxOps = 60
 	}
 	for i := 0; i < c.N; i++ {
 		r := c.Rng.Fork()
